@@ -63,7 +63,7 @@ def run(ctx):
         for style in (0, 1, 2):
             cases.append((name, n, ops, [sg.op_text(o, style=style) for o in ops], True))
         cases.append((name + ' (as tabulated)', n, ops, list(symms), True))
-    for k in range(400 if ctx.thorough() else 60):
+    for k in range(4000 if ctx.thorough() else 60):
         n, ops = gen_random_generators(rng)
         cases.append(('random generators', n, ops, [sg.op_text(o, style=rng.randrange(3)) for o in ops], False))
     terms, defs, meta = [], [], []
